@@ -289,10 +289,12 @@ PROPS = {
                 "evaluated at the fake connection instant (exact, no margins); oracle: kicked connection closed after one second and every other "
                 "client told (302); a connection is refused (handshake reply + exactly one server message + close, login not processed, not in "
                 "the user list, nobody notified) iff the model says banned, otherwise it logs in; ban file reloaded by a fresh BanFile == model; "
-                "non-trivial = a reconnect from a banned address, a reconnect after expiry, or a restart with >= 1 ban; distinct = hash(history)",
+                "non-trivial = a reconnect from a banned address, a reconnect after expiry, or a restart with >= 1 ban; distinct = hash(history); TestC17Burst: 2-8 administrators disconnect-and-ban 2-8 different users at the same instant (1-3 rounds), every ban must be in the ban file and enforced at the door before and after a restart",
         "assumptions": ["testing/synctest fake clock: time.Now() in mobius and in the model are the same instant"],
-        "quick": {"runs": [{"test": "^TestC17$", "shards": 16, "checks": 100, "timeout": 600}]},
-        "thorough": {"runs": [{"test": "^TestC17$", "shards": 16, "checks": 2500, "timeout": 3400}]},
+        "quick": {"runs": [{"test": "^TestC17$", "shards": 13, "checks": 100, "timeout": 600},
+                           {"test": "^TestC17Burst$", "shards": 3, "checks": 40, "timeout": 600}]},
+        "thorough": {"runs": [{"test": "^TestC17$", "shards": 13, "checks": 2500, "timeout": 3400},
+                              {"test": "^TestC17Burst$", "shards": 3, "checks": 2500, "timeout": 3400}]},
     },
     "C11": {
         "title": "File views agree and file operations carry the whole file",
